@@ -315,9 +315,10 @@ def _rule(draw, n_functions: int, max_k: int, half_only: bool = False):
 
 # preconditions of the wrapped libraries that ALGORITHM_INFOS does not declare
 MIN_DIMENSION = {"NLOPT_NEWUOA": 2}  # NLopt: "dimension 1 must be >= 2"
-# NLopt's bound-constrained NEWUOA spends 30-90 s inside its own C code when GEMSEO forces a stop at or after the last
-# point of the initial interpolation set (2*dim+1 points; measured: dim 2 max_iter 4, 5, 21; dim 3 max_iter 6, 21) with
-# all NLopt tolerances set to 0 by the wrapper: its budgets are kept inside that phase (max_iter <= 2*dim-1)
+# NLopt's bound-constrained NEWUOA spends 30-90 s inside its own C code (no Python callback, so no watchdog can cut it)
+# when GEMSEO forces a stop once the initial interpolation set (2*dim+1 points) is nearly or fully built, with all NLopt
+# tolerances set to 0 by the wrapper (measured: dim 2 max_iter 4, 5, 21; dim 3 max_iter 5, 6, 21; dim 4 max_iter 7);
+# interpolation points clipped onto recorded points shift the threshold, so only max_iter 1 and 2 are generated for it
 SLOW_AFTER_INITIALISATION = ("NLOPT_NEWUOA",)
 
 SUB_ALGOS_GRADIENT = ["SLSQP", "L-BFGS-B", "NLOPT_SLSQP"]
@@ -335,7 +336,8 @@ def opt_cases(draw, caps: dict, names: list, second_names: list | None = None):
     if cap["linear_only"] and stop == "ftol":
         stop = "budget"
     diff = "user"
-    if not linear and not cap["composite"] and draw(st.integers(0, 5)) == 0:
+    # approximated derivatives only matter to (and are only generated for) algorithms that ask for gradients
+    if not linear and not cap["composite"] and cap["grad"] and draw(st.integers(0, 2)) == 0:
         diff = draw(st.sampled_from(["finite_differences", "finite_differences", "centered_differences", "complex_step"]))
     use_int = cap["int"] and not cap["composite"] and diff == "user" and draw(st.booleans())
     space = draw(bounded_spaces(max_dim=3 if (cap["global"] or cap["composite"]) else 4, min_dim=MIN_DIMENSION.get(algo, 1),
@@ -364,13 +366,17 @@ def opt_cases(draw, caps: dict, names: list, second_names: list | None = None):
         name = ("g" if ctype == "ineq" else "h") + str(k + 1)
         fs = draw(function_specs(n_in, name, kinds=kinds, max_dim=min(2, eq_left) if ctype == "eq" else 2))
         fs["jac"] = "dense"
+        if cap["composite"]:
+            # Augmented_Lagrangian_order_0 updates its multipliers in place: 0-d for a constraint returning a python float,
+            # then adds a (1,) array to it (broadcast ValueError, unrelated to budgets)
+            fs["scalar_as"] = "array"
         if ctype == "eq":
             eq_left -= int(fs["dim"])
         cons.append({"type": ctype, "spec": fs})
     n_cons = len(cons)
     n_max = 10 if (cap["global"] or cap["composite"]) else 25
     if algo in SLOW_AFTER_INITIALISATION:
-        n_max = 2 * n_in - 1
+        n_max = 2
     n_iter = draw(st.one_of(st.integers(1, min(6, n_max)), st.integers(1, n_max)))
     nan = None
     if stop == "nan" and not linear:
@@ -414,7 +420,7 @@ def opt_cases(draw, caps: dict, names: list, second_names: list | None = None):
     second = None
     if draw(st.integers(0, 2)) == 0 and not cap["composite"]:
         pool = [n for n in (second_names or names) if _second_is_compatible(caps[n], cap, problem, use_int)
-                and n not in SLOW_AFTER_INITIALISATION and n_in >= MIN_DIMENSION.get(n, 1)]
+                and n not in SLOW_AFTER_INITIALISATION and n_in >= MIN_DIMENSION.get(n, 1) and (diff == "user" or caps[n]["grad"])]
         if pool:
             second = {"algo": draw(st.sampled_from(sorted(pool))), "max_iter": draw(st.integers(1, n_max)),
                       "reset": draw(st.booleans())}
